@@ -173,6 +173,13 @@ WaitpidEintr(nohang) ==
   /\ viol' = viol \cup V(known = NoSt, "C09_quiet") \cup V(op # "none", "C09_quiet")
   /\ UNCHANGED <<cst, truth, exitT, now, det, known, op, opD, opN, t0, knownAtCall, slept, nkill, killOk, told>>
 
+\* waitpid asked (with __WNOTHREAD) only about children of the calling thread, and this thread did not fork the child:
+\* ECHILD although the child is what it is -- the kernel has said nothing about it
+WaitpidNoThread(nohang) ==
+  /\ nwait' = nwait + 1 /\ nsys' = nsys + 1
+  /\ viol' = viol \cup V(known = NoSt, "C09_quiet") \cup V(op # "none", "C09_quiet")
+  /\ UNCHANGED <<cst, truth, exitT, now, det, known, op, opD, opN, t0, knownAtCall, slept, nkill, killOk, told, eintr>>
+
 \* a blocking waitpid really had to wait (forever = TRUE: the child never exits by itself)
 WaitBlock ==
   /\ cst = "running"
